@@ -2,7 +2,7 @@
    Finite statements over the tables regenerated from tags.py / svg.py / __init__.py /
    scripts/generate_tags.py on every run, decided by computation in the kernel and lifted
    to universally quantified form. *)
-From HT Require Import Model.Str Gen.Tables Model.TagTable.
+From HT Require Import Model.Str Model.Tree Gen.Tables Model.TagTable Model.Attrs Model.TagCtor.
 
 Lemma forallb_In {A} (f : A -> bool) l : forallb f l = true -> forall x, In x l -> f x = true.
 Proof. intros H x Hx. rewrite forallb_forall in H. exact (H x Hx). Qed.
@@ -32,6 +32,34 @@ Print Assumptions C19_counts.
 Theorem C19_toplevel : length init_from_tags = 17%nat /\ toplevel_ok = true.
 Proof. vm_compute. split; reflexivity. Qed.
 Print Assumptions C19_toplevel.
+
+(* Pass-through: for every row of either table (conforming shape, C19_html / C19_svg), the
+   wrapper called without _add_ws is the Tag constructor applied to the function's own name
+   with the documented default, whatever the children, attribute dicts and keyword
+   attributes are (so the C14 / C15 theorems about the constructor apply to all 179
+   functions); an explicit _add_ws is honoured; a non-bool _add_ws is rejected with
+   TypeError before anything else. *)
+Theorem C19_passthrough :
+  forall (C : Type) (r : row), In r (html_tag_rows ++ svg_tag_rows) ->
+  forall (args : list (posarg C)) (kw : pydict),
+    wrapper r args None kw
+    = tag_ctor (row_fname r) args (WBool (documented_default (row_fname r))) kw
+    /\ (forall b, wrapper r args (Some (WBool b)) kw = tag_ctor (row_fname r) args (WBool b) kw)
+    /\ wrapper r args (Some WOther) kw = Err TypeError.
+Proof.
+  intros C r Hin args kw.
+  assert (row_ok r = true) as Hok.
+  { apply in_app_or in Hin as [H|H]; [exact (C19_html r H) | exact (C19_svg r H)]. }
+  unfold row_ok in Hok. apply andb_true_iff in Hok as [Hok Hd]. apply andb_true_iff in Hok as [Hn _].
+  assert (row_fname r = row_elem r) as E.
+  { clear -Hn. revert Hn. generalize (row_fname r) (row_elem r).
+    intros a0. induction a0 as [|x l IH]; intros [|y l']; cbn; try discriminate; [reflexivity|].
+    intros H. apply andb_true_iff in H as [H1 H2]. apply N.eqb_eq in H1. subst.
+    f_equal. apply IH, H2. }
+  apply Bool.eqb_prop in Hd.
+  unfold wrapper. rewrite <- E, Hd, E. repeat split; reflexivity.
+Qed.
+Print Assumptions C19_passthrough.
 
 (* the documented default is block for div and inline for span, label, select, textPath's
    siblings a and svg: the classification is not constant *)
